@@ -22,7 +22,9 @@ fn adsr_op(fs: f32) -> BoxedStrategy<AdsrOp> {
         2 => adsr_time(fs).prop_map(AdsrOp::SetDecay),
         2 => adsr_time(fs).prop_map(AdsrOp::SetRelease),
         3 => sustain_level().prop_map(AdsrOp::SetSustain),
-        2 => (0u8..3, 0u8..3, prop_oneof![-1e-3f32..1e-3, -1e-5f32..1e-5, Just(1e-6f32), Just(-1e-6f32), Just(2e-4f32), Just(-2e-4f32)]).prop_map(|(dst, src, rel)| AdsrOp::NudgeTime { dst, src, rel }),
+        2 => (0.2f32..1.5).prop_map(AdsrOp::CutShort),
+        1 => (proptest::sample::select(vec![255u16, 256, 257, 300, 512, 40, 3]), 0u8..6).prop_map(|(n, ticks)| AdsrOp::GateBurst { n, ticks }),
+        2 => (0u8..3, 0u8..3, prop_oneof![Just(0.0f32), -1e-3f32..1e-3, -1e-5f32..1e-5, Just(1e-6f32), Just(-1e-6f32), Just(2e-4f32), Just(-2e-4f32)]).prop_map(|(dst, src, rel)| AdsrOp::NudgeTime { dst, src, rel }),
     ]
     .boxed()
 }
